@@ -25,6 +25,11 @@ TABLE = {
             "Held on the generated gap-pattern cases: every event (kind, bytes, offset, line number, separators, final byte count) equals the model's, under slice, tiny-buffer reader and a third strategy, and in rg's text output.",
             "The per-line match verdicts come from the C01 oracle; context kind is left open where a line is both after- and before-context.",
             "DESIGN.md §3 C03"),
+    "C04": (True, "exploration",
+            "runtime differential monitoring against an executable specification: rg --files vs git ls-files --others --exclude-standard on generated repositories (trees and .gitignore files over the gitignore grammar), with git check-ignore attribution in the witness",
+            "Held on the generated repositories: rg and git list exactly the same files, across literals, wildcards, classes, '**' forms, anchoring, directory-only patterns, negation, escapes, comments, trailing blanks, nested ignore files and case-insensitive matching.",
+            "git 2.39 is the specification; constructs where git itself deviates from gitignore(5) or that globset documents as unsupported are outside the generated grammar (listed in the evidence assumptions).",
+            "DESIGN.md §3 C04"),
     "C06": (True, "exploration",
             "runtime monitoring: entries recorded from WalkBuilder::build(), from build_parallel() at several thread counts, and from an independent std::fs recursion, compared as multisets on generated trees and option combinations",
             "Held on the generated trees x option combinations: serial and parallel walkers yielded identical duplicate-free (path, depth) multisets, equal to the independent listing where no ignore rules are involved, and link cycles produced loop errors while the walk ended.",
